@@ -71,28 +71,12 @@ Definition map_insert (k v : yaml) (l : list (yaml * yaml)) : list (yaml * yaml)
   | (None, r) => r ++ [(k, v)]
   end.
 
-(* Scalar::parse_from_cow_and_metadata + value_from_cow_and_metadata *)
-Definition core_prefix : str := [116;97;103;58;121;97;109;108;46;111;114;103;44;50;48;48;50;58]%N.
-Definition w (l : list N) : str := l.
+(* Yaml::value_from_cow_and_metadata: BadValue when the tagged parse fails *)
+Definition is_plain (st : style) : bool := match st with Plain => true | _ => false end.
 Definition value_of (v : str) (st : style) (tg : option tag) : yaml :=
-  match st with
-  | Plain =>
-      match tg with
-      | Some t =>
-          if Resolver.str_eqb (tg_handle t) core_prefix then
-            if Resolver.str_eqb (tg_suffix t) (w [98;111;111;108]%N) then
-              (if Resolver.str_eqb v s_true then YVal (SBool true) else if Resolver.str_eqb v s_false then YVal (SBool false) else YBad)
-            else if Resolver.str_eqb (tg_suffix t) (w [105;110;116]%N) then
-              match parse_i64 v with Some i => YVal (SInt i) | None => YBad end
-            else if Resolver.str_eqb (tg_suffix t) (w [102;108;111;97;116]%N) then
-              match parse_f64 v with Some f => YVal (SFloat f) | None => YBad end
-            else if Resolver.str_eqb (tg_suffix t) (w [110;117;108;108]%N) then
-              (if inl v [s_tilde; s_null] then YVal SNull else YBad)
-            else YVal (SStr v)
-          else YVal (SStr v)
-      | None => YVal (parse_from_cow v)
-      end
-  | _ => YVal (SStr v)
+  match parse_from_cow_and_metadata v (is_plain st) (option_map (fun t => (tg_handle t, tg_suffix t)) tg) with
+  | Some sc => YVal sc
+  | None => YBad
   end.
 
 Record loader := {
